@@ -142,7 +142,7 @@ func cmdReplay(args []string) int {
 	if len(args) < 1 {
 		usage()
 	}
-	rf, v, err := runner.Replay(args[0])
+	rf, v, err := runner.ReplayWithWatchdog(args[0])
 	if err != nil {
 		fmt.Fprintf(os.Stderr, "replay: %v\n", err)
 		return 2
